@@ -57,7 +57,11 @@ func (m *mySQLUndoUpdateExecutor) ExecuteOn(ctx context.Context, dbType types.DB
 	defer stmt.Close()
 
 	beforeImage := m.sqlUndoLog.BeforeImage
-	for _, row := range beforeImage.Rows {
+	// the rows are put back in the reverse of the order the statement changed them in: a statement that
+	// moved values of a unique index from row to row (c = c + 1 ...) is only undone without a transient
+	// duplicate key when it is unwound backwards
+	for i := len(beforeImage.Rows) - 1; i >= 0; i-- {
+		row := beforeImage.Rows[i]
 		undoValues := make([]interface{}, 0)
 		pkList, err := GetOrderedPkList(beforeImage, row, dbType)
 		if err != nil {
